@@ -15,12 +15,19 @@ Lipschitz in the multiplier with the explicit constant `Σ xᵢ·sqrt(−gᵢ) /
 hence on exit `|Σ xnew − maxvol| ≤ A·l1l2tol/(2·l1·sqrt l1)` (`oc_volume_tolerance`, a-posteriori in the returned lower end)
 and `≤ A·l1l2tol/(2·(λ₀−l1l2tol)·sqrt(λ₀−l1l2tol))` whenever the target is reachable (`oc_volume_tolerance_reachable`,
 a-priori; `oc_iteration_volume` for every design a run writes back).
-NOT proved: convergence of the fixed-point iteration to the analytic optimum (observed by the harness oracle only);
-termination of the `while` loop is an input (`fuel`), not a theorem.
+Termination of the `while` loop: every pass halves the bracket, so it ends after `k` passes once
+`l2 − l1 ≤ l1l2tol·2^k`, and the model's `fuel` (≥ `k+1`) never runs out (`oc_bisection_terminates`, `oc_iteration_terminates`).
+Separable objective `Σ cᵢ/xᵢ` (`sqrt` under `SqrtOK`): the un-clipped update is `sqrt(cᵢ/λ)` whatever the current design is
+(`oc_separable_update`), and the updated design whose volume meets the target minimises `Σ cᵢ/xᵢ` over every design of the
+move-limited box with at most that volume (`oc_separable_optimal`): where the move limits do not bind this is the analytic
+optimum, reached in one step.
+NOT proved (`_partial` in the sense of DESIGN §6): that a run with binding move limits reaches the analytic optimum in finitely
+many iterations, and the effect of the bisection tolerance on it (volume met only to `C·l1l2tol`); observed by the harness oracle.
 -/
 import PymotoVerif.Lemmas.OC
 import PymotoVerif.Lemmas.OCVolume
 import PymotoVerif.Lemmas.OCVolumeReal
+import PymotoVerif.Lemmas.OCTerm
 import Mathlib.Data.List.Chain
 
 namespace PymotoVerif.C17
@@ -303,6 +310,76 @@ example : SqrtOK Real.sqrt ∧
     (fun _ => 1) (fun _ => -1) (fun _ _ => by norm_num) (fun _ _ => by norm_num) (1 / 2) 2 5 ⟨0, 8, none, none⟩ s'
     (by norm_num) (by norm_num) (by norm_num) h 3 (by norm_num) (by norm_num) demo_v3 demo_v8
   exact ⟨s', xn, h, e, hb⟩
+
+/-! ## termination of the bisection; the separable objective `Σ cᵢ/xᵢ` -/
+
+/-- **the `while` loop terminates**: a bracket of width at most `l1l2tol · 2^k` is resolved within `k` passes; the model's
+    fuel (any value `≥ k+1`) does not run out and does not influence the result -/
+theorem oc_bisection_terminates (n : Nat) (upd : α → Nat → α) (maxvol tol : α) (k fuel : Nat) (s : BState α)
+    (hw : s.l2 - s.l1 ≤ tol * 2 ^ k) (hf : k + 1 ≤ fuel) :
+    ∃ s', bisect n upd maxvol tol fuel s = some s' ∧ ∀ g, fuel ≤ g → bisect n upd maxvol tol g s = some s' := by
+  obtain ⟨s', h⟩ := bisect_terminates n upd maxvol tol k s hw
+  have h' := bisect_fuel_mono n upd maxvol tol _ s s' h fuel hf
+  exact ⟨s', h', fun g hg => bisect_fuel_mono n upd maxvol tol _ s s' h' g hg⟩
+
+/-- non-vacuity: the default bracket `[0, 1e9]` with `l1l2tol = 1e-3` needs `k = 40` halvings (`1e9 ≤ 1e-3·2^40`) -/
+example : ((10:ℚ)^9 - 0 ≤ (1/1000) * 2 ^ 40) ∧
+    (bisect 2 (fun (l : ℚ) _ => clip (1 / l) 0 1) 1 (1/2) 5 ⟨0, 4, none, none⟩).isSome = true := by
+  refine ⟨by norm_num, by decide +kernel⟩
+
+/-- **no iteration of a run hangs in the bisection**: with enough fuel the model never reports `"Diverges"` -/
+theorem oc_iteration_terminates (sqrt : α → α) (prob : Problem α) (p : Params α) (cumulative : List Nat)
+    (nsig fuel k : Nat) (s : LState α) (hw : p.l2init - p.l1init ≤ p.l1l2tol * 2 ^ k) (hf : k + 1 ≤ fuel) :
+    iteration sqrt prob p cumulative nsig fuel s ≠ .error "Diverges" :=
+  iteration_not_diverges sqrt prob p cumulative nsig fuel k s hw hf
+
+/-- **separable objective, one update**: for `f = Σ cⱼ/xⱼ` (gradient `−cⱼ/xⱼ²`, `cⱼ ≥ 0`) the coded update of a positive
+    variable is `clip(sqrt(cᵢ/λ), lower, upper)`: the un-clipped value does not depend on the current design -/
+theorem oc_separable_update (sqrt : α → α) (hs : SqrtOK sqrt) (xmin xmax move xval c : Nat → α) (l : α) (i : Nat)
+    (hx : 0 < xval i) (hc : 0 ≤ c i) (hl : 0 < l) :
+    update sqrt xmin xmax move xval (fun j => -(c j / (xval j * xval j))) l i
+      = clip (sqrt (c i / l)) (lower xmin move xval i) (upper xmax move xval i) := by
+  unfold update
+  rw [separable_update hs (xval i) (c i) l hx hc hl]
+
+/-- **separable objective, optimality**: if the update for the multiplier `λ > 0` has exactly the target volume, it
+    minimises `Σ cᵢ/xᵢ` over all designs `y` of the move-limited box `[lower, upper]` (positive lower ends) whose volume
+    does not exceed the target.  Where the move limits do not bind this is the analytic optimum of the problem
+    `min Σ cᵢ/xᵢ  s.t.  Σ xᵢ ≤ V, xmin ≤ x ≤ xmax`, reached in ONE iteration from any positive design. -/
+theorem oc_separable_optimal (sqrt : α → α) (hs : SqrtOK sqrt) (n : Nat) (xmin xmax move xval c : Nat → α) (l maxvol : α)
+    (hx : ∀ i, i < n → 0 < xval i) (hc : ∀ i, i < n → 0 ≤ c i) (hl : 0 < l)
+    (hlo : ∀ i, i < n → 0 < lower xmin move xval i)
+    (hlh : ∀ i, i < n → lower xmin move xval i ≤ upper xmax move xval i)
+    (hvol : volume n (update sqrt xmin xmax move xval (fun j => -(c j / (xval j * xval j))) l) = maxvol)
+    (y : Nat → α) (hy1 : ∀ i, i < n → lower xmin move xval i ≤ y i) (hy2 : ∀ i, i < n → y i ≤ upper xmax move xval i)
+    (hyv : volume n y ≤ maxvol) :
+    sumRange n (fun i => c i / update sqrt xmin xmax move xval (fun j => -(c j / (xval j * xval j))) l i)
+      ≤ sumRange n (fun i => c i / y i) := by
+  set u := update sqrt xmin xmax move xval (fun j => -(c j / (xval j * xval j))) l with hu
+  have hterm : ∀ i, i < n → c i / u i + l * u i ≤ c i / y i + l * y i := by
+    intro i hi
+    rw [hu, oc_separable_update sqrt hs xmin xmax move xval c l i (hx i hi) (hc i hi) hl]
+    have hq : 0 ≤ c i / l := div_nonneg (hc i hi) hl.le
+    exact lagr_min (c i) l (sqrt (c i / l)) _ _ (y i) hl (hs.nonneg _ hq) (hs.sq _ hq) (hlo i hi) (hlh i hi)
+      (hy1 i hi) (hy2 i hi)
+  have hsum := volume_mono n (fun i => c i / u i + l * u i) (fun i => c i / y i + l * y i) hterm
+  unfold volume at hsum hvol hyv
+  rw [sumRange_add', sumRange_add', sumRange_mul_left', sumRange_mul_left', hvol] at hsum
+  have : l * sumRange n y ≤ l * maxvol := mul_le_mul_of_nonneg_left hyv hl.le
+  linarith
+
+/-- non-vacuity over ℝ: two variables, `c = (1, 4)`, current design `(1, 1)`, bounds `[1/10, 10]`, no binding move limit,
+    `λ = 1`: the update is `(1, 2)` with volume 3, and it beats the feasible design `(3/2, 3/2)`: `1/1 + 4/2 = 3 ≤ 2/3 + 8/3` -/
+example : update Real.sqrt (fun _ => 1/10) (fun _ => 10) (fun _ => 100) (fun _ => 1)
+      (fun j => -((if j = 0 then (1:ℝ) else 4) / ((1:ℝ) * 1))) 1 1 = 2 := by
+  rw [oc_separable_update Real.sqrt sqrtOK_real _ _ _ _ (fun j => if j = 0 then (1:ℝ) else 4) 1 1 (by norm_num)
+    (by norm_num) (by norm_num)]
+  have : Real.sqrt ((if (1:ℕ) = 0 then (1:ℝ) else 4) / 1) = 2 := by
+    rw [show ((if (1:ℕ) = 0 then (1:ℝ) else 4) / 1) = 2 * 2 by norm_num]
+    exact Real.sqrt_mul_self (by norm_num)
+  rw [this, clip_eq, lower, upper, vmax_eq, vmin_eq]
+  norm_num
+
 
 /-! ## write-back -/
 
